@@ -274,17 +274,42 @@ fn branch_doc(trivia: &Trivia, branch: &Branch, multi_branch: bool) -> Doc {
     match &branch.consequence {
         None => {
             let body = sequence_doc(trivia, &branch.condition, multi_branch, nest);
-            wrap_breaking_body(&branch.condition, body, multi_branch)
+            wrap_breaking_body(trivia, &branch.condition, body, multi_branch)
         }
         Some(consequence) => {
             let condition = sequence_doc(trivia, &branch.condition, multi_branch, nest);
             let body = sequence_doc_after_arrow(trivia, consequence, nest);
-            let body = wrap_breaking_body(consequence, body, multi_branch);
+            let body = wrap_breaking_body(trivia, consequence, body, multi_branch);
+            // A comment that ends the `=>` line — trailing the guard's last chain, or leading the
+            // consequence's first — must stay the last thing on that line, so the consequence then
+            // starts on a line of its own. Left on the `=>` line, the consequence would push a
+            // trailing comment to the end of its own first line (into the middle of a `~>` pipeline,
+            // if it breaks, which does not parse) and turn a leading comment into a trailing one; the
+            // comment would re-attach to a different node and the next run would print it elsewhere.
+            let comment_at_arrow = branch
+                .condition
+                .chains
+                .last()
+                .is_some_and(|chain| trivia.has_trailing_comment(chain.span))
+                // (a leading comment of a body that gets grouping braces moves inside the braces)
+                || (!wraps_breaking_body(trivia, consequence, multi_branch)
+                    && consequence
+                        .chains
+                        .first()
+                        .is_some_and(|chain| trivia.has_leading_comment(chain.span)));
+            let (arrow, body) = if comment_at_arrow {
+                (
+                    pretty::text(" =>"),
+                    pretty::nest(2, pretty::concat(vec![pretty::hardline(), body])),
+                )
+            } else {
+                (pretty::text(" => "), body)
+            };
             // A guard is normally flattened onto one line so a long consequence does not push it onto
             // `~>` lines — but not when it carries a comment or is itself a breaking pipeline (which
             // forces a break; flattening would comment out / collapse the rest of the line).
             if pretty::forces_break(&condition) {
-                let content = pretty::concat(vec![condition, pretty::text(" => "), body]);
+                let content = pretty::concat(vec![condition, arrow, body]);
                 // A single-chain `~>` guard indents its continuations under the head (past the `| `),
                 // *and* the consequence that follows the last one on the same line — so the whole
                 // `cond => consequence` is nested together, keeping the consequence aligned with the
@@ -296,11 +321,7 @@ fn branch_doc(trivia: &Trivia, branch: &Branch, multi_branch: bool) -> Doc {
                     content
                 }
             } else {
-                pretty::concat(vec![
-                    pretty::text(pretty::flatten(&condition)),
-                    pretty::text(" => "),
-                    body,
-                ])
+                pretty::concat(vec![pretty::text(pretty::flatten(&condition)), arrow, body])
             }
         }
     }
@@ -311,13 +332,8 @@ fn branch_doc(trivia: &Trivia, branch: &Branch, multi_branch: bool) -> Doc {
 /// continuation would otherwise dangle at the bar indent, reading like a new step. The brace block is
 /// a frame-free single chain, which both the compiler and the formatter's own strip pass remove —
 /// so this render-time wrap is bytecode-neutral and idempotent. `body` is the already-rendered doc.
-fn wrap_breaking_body(sequence: &Sequence, body: Doc, multi_branch: bool) -> Doc {
-    // Only a frame-free chain: braces around a binding or an in-chain match are a real scope /
-    // narrowing barrier that neither the compiler nor the strip pass removes.
-    let breaking_pipeline = matches!(sequence.chains.as_slice(), [chain]
-        if chain.terms.last().is_some_and(|term| !is_breakable_container(term))
-            && crate::simplify::is_frame_free_chain(chain));
-    if multi_branch && breaking_pipeline && pretty::forces_break(&body) {
+fn wrap_breaking_body(trivia: &Trivia, sequence: &Sequence, body: Doc, multi_branch: bool) -> Doc {
+    if wraps_breaking_body(trivia, sequence, multi_branch) {
         pretty::concat(vec![
             pretty::text("{"),
             pretty::nest(2, pretty::concat(vec![pretty::hardline(), body])),
@@ -327,6 +343,20 @@ fn wrap_breaking_body(sequence: &Sequence, body: Doc, multi_branch: bool) -> Doc
     } else {
         body
     }
+}
+
+/// Whether [`wrap_breaking_body`] adds grouping braces around `sequence`.
+fn wraps_breaking_body(trivia: &Trivia, sequence: &Sequence, multi_branch: bool) -> bool {
+    // Only a frame-free chain: braces around a binding or an in-chain match are a real scope /
+    // narrowing barrier that neither the compiler nor the strip pass removes. And only when the
+    // chain's own layout breaks (as in `is_tall_step`), not when `body` breaks merely because a
+    // comment is attached to it: there is then no `~>` continuation to delimit, and braces around a
+    // comment would be kept by the next run (they carry trivia), changing the output again.
+    let breaking_pipeline = matches!(sequence.chains.as_slice(), [chain]
+        if chain.terms.last().is_some_and(|term| !is_breakable_container(term))
+            && crate::simplify::is_frame_free_chain(chain)
+            && pretty::forces_break(&chain_doc(trivia, chain)));
+    multi_branch && breaking_pipeline
 }
 
 /// A chain: an optional `pattern = ` binding followed by space-joined terms. When the terms do not
@@ -961,6 +991,23 @@ impl Trivia {
             })
             .collect();
         pretty::concat(parts)
+    }
+
+    /// Whether a comment trails the node starting at `span`.
+    fn has_trailing_comment(&self, span: Spanned) -> bool {
+        span.get()
+            .is_some_and(|span| self.trailing.contains_key(&span.offset))
+    }
+
+    /// Whether a comment (not just blank lines) leads the node starting at `span`.
+    fn has_leading_comment(&self, span: Spanned) -> bool {
+        span.get()
+            .and_then(|span| self.leading.get(&span.offset))
+            .is_some_and(|items| {
+                items
+                    .iter()
+                    .any(|item| matches!(item, TriviaItem::Comment(_)))
+            })
     }
 
     /// Whether the node starting at `span` carries any leading or trailing trivia.
